@@ -76,6 +76,16 @@ def run(case):
         f64 = v.astype(np.float64) if dt.kind != "f" else v.astype(np.float32 if dt != np.float32 else np.float64)
     convs = [("np.array(copy=True)", lambda: np.array(r, copy=True), v), ("np.array(dtype=%s)" % f64.dtype, lambda: np.array(r, dtype=f64.dtype), f64),
              ("np.asarray(dtype=own)", lambda: np.asarray(r, dtype=dt), v)]
+    # conversions across kinds (float -> int, signed -> unsigned, anything -> bool) are what numpy's own astype gives (finite values only)
+    if dt.kind != "f" or bool(np.all(np.isfinite(v))):
+        for tgt in (["int64", "uint8", "bool", "int8"] if dt.kind == "f" else ["uint8", "bool", "uint64", "int16"]):
+            with _w.catch_warnings():
+                _w.simplefilter("ignore")
+                with np.errstate(all="ignore"):
+                    want_ = np.asarray(v).astype(tgt)
+            if dt.kind == "f" and tgt != "bool" and not np.array_equal(want_.astype(np.float64), np.trunc(v.astype(np.float64))):
+                continue      # out-of-range float -> int casts are undefined in C; only in-range values are compared
+            convs.append(("np.asarray(dtype=%s)" % tgt, (lambda t_: (lambda: np.asarray(r, dtype=t_)))(tgt), want_))
     if L <= 40:
         convs += [("list()", lambda: np.array(list(r), dtype=dt), v), ("reversed()", lambda: np.array(list(reversed(r)), dtype=dt), v[::-1])]
     for what, f, want in convs:
@@ -108,6 +118,22 @@ def run(case):
     if c:
         return violated("%s is not canonical: %s" % (desc, c), tags + ["not-canonical"])
     if kind == "encode":
+        # encoding an argument that is itself a run-length array with equal neighbouring runs (a scalar-ufunc result) is encoding all the same
+        for nm_, der_ in (("abs", lambda x_: np.abs(x_) if dt.kind != "b" else np.logical_or(x_, True)), ("cmp", lambda x_: x_ > (v[0] if dt.kind != "b" else False)), ("mul0", lambda x_: (x_ * 0) if dt.kind != "b" else np.logical_and(x_, False))):
+            attempt(der_, v)          # (the same derivation on the dense array: whatever floating-point events it has are numpy's own)
+            d_ = attempt(der_, r)
+            if not d_.ok or not isinstance(d_.value, RLA):
+                continue
+            dense_ = np.asarray(d_.value.to_array())
+            e2 = attempt(RLA.from_array, d_.value)
+            if not e2.ok:
+                continue          # (not every version accepts a run-length argument; if it does, the result is an encoding)
+            CTX.tick("c14:joined")
+            if not isinstance(e2.value, RLA) or not same_array(np.asarray(e2.value.to_array()), dense_, dtype=True):
+                return violated("%s: from_array(%s(rla)) decodes to %s, expected %s" % (desc, nm_, short(getattr(e2.value, "to_array", lambda: e2.value)(), 120), short(dense_, 120)), tags + ["encode-of-encoding"])
+            c2 = rl.canonical(e2.value, joined=True)
+            if c2:
+                return violated("%s: from_array(%s(rla)) is not canonical: %s" % (desc, nm_, c2), tags + ["not-canonical", "encode-of-encoding"])
         return held(tags, nontrivial)
 
     # ---- producers
